@@ -1027,7 +1027,7 @@ impl Transaction {
         // levels of fee-throughput.
         //
         if let TransactionType::BlockStake = self.transaction_type {
-            let mut total_stakes = 0;
+            let mut total_stakes: Currency = 0;
 
             for slip in self.to.iter() {
                 if !matches!(slip.slip_type, SlipType::BlockStake)
@@ -1038,7 +1038,7 @@ impl Transaction {
                 }
 
                 if matches!(slip.slip_type, SlipType::BlockStake) {
-                    total_stakes += slip.amount;
+                    total_stakes = total_stakes.saturating_add(slip.amount);
                 }
             }
 
@@ -1530,7 +1530,9 @@ impl Transaction {
                 let slip_index1 = self.from[1].slip_index;
                 let slip_index2 = self.from[2].slip_index;
 
-                if slip_index1 != slip_index0 + 1 || slip_index2 != slip_index1 + 1 {
+                if slip_index0.checked_add(1) != Some(slip_index1)
+                    || slip_index1.checked_add(1) != Some(slip_index2)
+                {
                     error!(
                         "Send-bound TX: input slips slip_index are not sequential ({} / {} / {}).",
                         slip_index0, slip_index1, slip_index2
